@@ -147,3 +147,71 @@ func VH_C13_S5_rotation_reread() {
 	}
 	s.close()
 }
+
+// C13-S5d: placement family. The latest records of two colliding keys are placed independently
+// in data file 0, 1 or the head (same file or different files, either order inside a file),
+// the rest of each file is filled with an ordinary key. Every key is read twice while the
+// records are still buffered, twice after the flush, and twice after a restart (all/no
+// indexes), a GC pass over the two full files, or an overwrite of one colliding key.
+func VH_C13_S5_placement() {
+	collideHash()
+	s := newScen(768, false, "ca", "cb", "kx")
+	s.distinct = true
+	s.noVersion = map[string]bool{"ca": true, "cb": true}
+	fa, fb := vrt.Choice("file-of-ca", 3), vrt.Choice("file-of-cb", 3)
+	caFirst := true
+	if fa == fb {
+		caFirst = vrt.Bool("ca-first")
+	}
+	early := vrt.Bool("read-while-buffered")
+	for f := 0; f < 3; f++ {
+		n := 0
+		put := func(k string) { s.setS(k); n++ }
+		if caFirst {
+			if fa == f {
+				put("ca")
+			}
+			if fb == f {
+				put("cb")
+			}
+		} else {
+			if fb == f {
+				put("cb")
+			}
+			if fa == f {
+				put("ca")
+			}
+		}
+		if f == 2 {
+			if n == 0 {
+				put("kx")
+			}
+			break
+		}
+		for n < 3 {
+			put("kx")
+		}
+	}
+	if early {
+		s.checkAll("buffered-first-read")
+		s.checkAll("buffered-second-read")
+	}
+	s.flush()
+	s.checkAll("first-read")
+	s.checkAll("second-read")
+	switch vrt.Choice("then", 3) {
+	case 0:
+		s.reopen(vrt.Choice("rm", 2) * 7)
+		s.checkAll("after-restart")
+		s.checkAll("after-restart-second-read")
+	case 1:
+		s.gc(0, 1, vrt.Bool("merge"))
+		s.checkAll("after-gc")
+		s.checkAll("after-gc-second-read")
+	case 2:
+		s.setS([]string{"ca", "cb"}[vrt.Choice("overwrite", 2)])
+		s.checkAll("after-overwrite")
+		s.checkAll("after-overwrite-second-read")
+	}
+	s.close()
+}
